@@ -110,6 +110,95 @@ def static_tie(ctx):
     return problems
 
 
+# ---------------------------------------------------------------- decode / parse guards
+GUARD_FUNCS = {
+    "httping.py": ["parseLine", "parseLeader", "parseChunk", "parseStatusLine", "parseRequestLine",
+                   "EventSource.parseEvents", "EventSource.parse", "Parsent.parseMessage", "Parsent.parse",
+                   "Parsent.dictify"],
+    "serving.py": ["Requestant.parseHead", "Requestant.parseBody", "Requestant.checkPersisted",
+                   "Valet.buildEnviron", "Valet.serviceReqs"],
+    "clienting.py": ["Respondent.parseHead", "Respondent.parseBody", "Respondent.checkPersisted",
+                     "Patron.serviceResponse"],
+}
+SAFE_CODECS = ("iso-8859-1", "latin-1", "latin1")
+
+
+def raisers_in(node):
+    """[(what, exception class, line)] for calls in node that can raise on arbitrary bytes / text"""
+    import json as _json
+    out = []
+    for n in ast.walk(node):
+        if not isinstance(n, ast.Call):
+            continue
+        f = n.func
+        if isinstance(f, ast.Attribute) and f.attr == "decode":
+            args = [a.value for a in n.args if isinstance(a, ast.Constant)]
+            kws = dict((k.arg, k.value.value) for k in n.keywords if isinstance(k.value, ast.Constant))
+            codec = (args[0] if args else kws.get("encoding", "utf-8"))
+            errors = (args[1] if len(args) > 1 else kws.get("errors", "strict"))
+            if str(codec).lower() in SAFE_CODECS or errors in ("replace", "ignore", "backslashreplace"):
+                continue
+            out.append((".decode(%r)" % codec, UnicodeDecodeError, n.lineno))
+        elif isinstance(f, ast.Attribute) and f.attr == "loads" and name_of(f.value) == "json":
+            out.append(("json.loads", _json.JSONDecodeError, n.lineno))
+        elif isinstance(f, ast.Name) and f.id == "int" and n.args and not isinstance(n.args[0], ast.Constant):
+            out.append(("int()", ValueError, n.lineno))
+        elif isinstance(f, ast.Name) and f.id == "urlsplit":
+            out.append(("urlsplit()", ValueError, n.lineno))
+    for n in ast.walk(node):
+        if isinstance(n, ast.Attribute) and n.attr == "port" and name_of(n.value) == "pathSplits":
+            out.append((".port", ValueError, n.lineno))
+    return out
+
+
+def resolve_exc(expr):
+    import builtins
+    import json as _json
+    from ioflo.aio.http import httping
+    if expr is None:
+        return [BaseException]
+    if isinstance(expr, ast.Tuple):
+        return [c for e in expr.elts for c in resolve_exc(e)]
+    nm = name_of(expr)
+    for ns in (httping, builtins, _json):
+        c = getattr(ns, nm, None) if nm else None
+        if isinstance(c, type) and issubclass(c, BaseException):
+            return [c]
+    return []
+
+
+def decode_guard_scan(ctx):
+    """every call in the parse / post-processing path that can raise on arbitrary input (strict
+    .decode, json.loads, int(), urlsplit / .port) must sit in a try whose handlers catch the class it
+    raises (and do not bare re-raise it)"""
+    base = os.path.join(ctx.repo, "ioflo", "aio", "http")
+    problems = []
+    for fname, fns in GUARD_FUNCS.items():
+        tree = ast.parse(open(os.path.join(base, fname)).read())
+        fs = funcs_of(tree)
+        for fn in fns:
+            if fn not in fs:
+                problems.append("%s: function %s not found" % (fname, fn))
+                continue
+            tries = [t for t in ast.walk(fs[fn]) if isinstance(t, ast.Try)]
+            for what, exc, line in raisers_in(fs[fn]):
+                guarded = False
+                for t in tries:
+                    inside = any(getattr(n, "lineno", None) == line and isinstance(n, ast.Call) or
+                                 (isinstance(n, ast.Attribute) and getattr(n, "lineno", None) == line and n.attr == "port")
+                                 for b in t.body for n in ast.walk(b))
+                    if not inside:
+                        continue
+                    for h in t.handlers:
+                        bare = any(isinstance(x, ast.Raise) and x.exc is None for x in ast.walk(h))
+                        if not bare and any(issubclass(exc, c) for c in resolve_exc(h.type)):
+                            guarded = True
+                if not guarded:
+                    problems.append("%s:%d %s: %s can raise %s, which no enclosing except clause catches"
+                                    % (fname, line, fn, what, exc.__name__))
+    return problems
+
+
 # ---------------------------------------------------------------- Valet / Patron doubles
 class Timer(object):
     expired = False
@@ -319,7 +408,7 @@ class ConnDouble(object):
         pass
 
 
-def run_patron(pieces, close, method="GET"):
+def run_patron(pieces, close, method="GET", dictable=None):
     from ioflo.aio.http import clienting
     from ioflo.aio.tcp import Client
 
@@ -328,7 +417,8 @@ def run_patron(pieces, close, method="GET"):
             ConnDouble.__init__(self)
 
     conn = Conn()
-    patron = clienting.Patron(connector=conn, hostname="127.0.0.1", port=8080, redirectable=False)
+    patron = clienting.Patron(connector=conn, hostname="127.0.0.1", port=8080, redirectable=False,
+                              dictable=dictable)
     patron.request(method=method, path="/x")
     esc = None
     try:
@@ -343,7 +433,8 @@ def run_patron(pieces, close, method="GET"):
         esc = "%s: %s" % (type(ex).__name__, str(ex)[:120])
     rs = list(patron.responses)
     return {"responses": len(rs), "errored": bool(rs and rs[0]["errored"]),
-            "error": rs[0]["error"] if rs else None, "escaped": esc}
+            "error": rs[0]["error"] if rs else None, "escaped": esc,
+            "data": repr(rs[0]["data"])[:60] if rs else None}
 
 
 OUT = {"OMessage": 0, "ONeedMore": 1, "OFailed": 2, "OEscapes": 3}
@@ -369,6 +460,10 @@ def run(ctx):
     for p in problems[:6]:
         ctx.tie_broken("translator", "raise sites / except clauses vs C32.Model", p)
     ctx.extra["static_raise_except_problems"] = problems
+    gproblems = decode_guard_scan(ctx)
+    for p in gproblems[:6]:
+        ctx.tie_broken("translator", "decode / parse calls are guarded by a wide enough except clause", p)
+    ctx.extra["static_decode_guard_problems"] = gproblems
 
     rng = ctx.rng
     cases, metas = [], []
@@ -516,18 +611,70 @@ def run(ctx):
         flat = [9] if ob["escaped"] else [2 if ob["errored"] else 0 if ob["responses"] else 1]
         pcases.append((expr, H.zl(flat)))
         pmetas.append((pieces, close, ob))
+    # (3a) WELL-FRAMED responses with malformed CONTENT for every content type the client post-processes:
+    #      application/json (any case, with charset parameter) or a dictable Patron -> Parsent.dictify
+    #      (utf-8 decode + json.loads); bodies: valid json, ascii non-json, invalid utf-8, truncated
+    #      multi-byte sequence, BOM, utf-16, empty
+    def bad_content(r):
+        k = r.randrange(9)
+        if k == 0:
+            return b'{"a": [1, 2, {"b": null}]}'
+        if k == 1:
+            return r.choice([b"{", b"[1,", b"nope", b'{"a": }', b"\x00", b"1 2"])
+        if k == 2:
+            return bytes(r.randrange(256) for _ in range(r.randint(1, 24)))
+        if k == 3:
+            return b'{"k": "' + r.choice([b"\xff", b"\xc3", b"\xe2\x82", b"\xf0\x9f\x98", b"\xc0\xaf", b"\xed\xa0\x80"]) + b'"}'
+        if k == 4:
+            return b"\xef\xbb\xbf" + b'{"a": 1}'
+        if k == 5:
+            return '{"a": "\u00e9"}'.encode(r.choice(["utf-16", "utf-16-le", "latin-1", "utf-32"]))
+        if k == 6:
+            return b""
+        if k == 7:
+            return G.mutate(r, b'{"name": "caf\xc3\xa9", "n": [1, 2, 3]}')
+        return '{"s": "\u20ac\ud83d\ude00"}'.encode("utf-8", "surrogatepass")
+    for _ in range(ctx.n(300, 2500)):
+        body = bad_content(rng)
+        ctype = rng.choice([b"application/json", b"Application/JSON", b"application/json; charset=utf-8",
+                            b"application/json;charset=latin-1", b"text/plain", b"application/x-www-form-urlencoded",
+                            b"multipart/form-data; boundary=x", b"application/octet-stream"])
+        dictable = rng.random() < 0.3
+        framing = rng.choice(["length", "chunked", "close"])
+        head = b"HTTP/1.1 200 OK\r\nContent-Type: " + ctype + b"\r\n"
+        if rng.random() < 0.2:
+            head += b"Content-Encoding: " + rng.choice([b"gzip", b"deflate", b"br"]) + b"\r\n"
+        if framing == "length":
+            data = head + b"Content-Length: %d\r\n\r\n" % len(body) + body
+        elif framing == "chunked":
+            data = head + b"Transfer-Encoding: chunked\r\n\r\n" + (b"%x\r\n" % len(body) + body + b"\r\n" if body else b"") + b"0\r\n\r\n"
+        else:
+            data = head + b"\r\n" + body
+        close = framing == "close"
+        pieces = H.random_split(rng, data, 4)
+        ob = run_patron(pieces, close, dictable=dictable)
+        ctx.case({"pieces": [p.decode("latin-1") for p in pieces], "close": close, "dictable": dictable, "obs": ob},
+                 nontrivial=True, kind="patron-content/%s/%s" % (
+                     "escaped" if ob["escaped"] else "data" if ob["data"] not in (None, "None") else "nodata",
+                     "json" if b"json" in ctype.lower() or dictable else "other"))
+        expr = ("[match outcome_of patron_catch (let k := http_feed_all (mkcfg 65536 100 []) (init_pst true false, []) %s "
+                "in if %s then http_close (mkcfg 65536 100 []) k else k) with OMessage => 0 | ONeedMore => 1 "
+                "| OFailed => 2 | OEscapes => 3 end]" % (H.zll(pieces), "true" if close else "false"))
+        flat = [9] if ob["escaped"] else [2 if ob["errored"] else 0 if ob["responses"] else 1]
+        pcases.append((expr, H.zl(flat)))
+        pmetas.append((pieces, close, ob))
     # (3b) text/event-stream responses with arbitrary (also non UTF-8) bytes: the finer outcome is
     # not compared (evented responses are not appended to .responses); the theorem's claim checked
     # here is only "never escapes"
     emetas = []
     for _ in range(ctx.n(250, 1500)):
-        body = bytes(rng.choice(b"data: idevnr\r\n\n:0\xff\xfe\xc3\xa9") for _ in range(rng.randint(0, 40)))
+        body = bytes(rng.choice(b"data: idevnr\r\n\n:0\xff\xfe\xc3\xa9{}[]\"1,") for _ in range(rng.randint(0, 40)))
         head = (b"HTTP/1.1 200 OK\r\nContent-Type: text/event-stream\r\n" +
                 rng.choice([b"", b"Transfer-Encoding: chunked\r\n"]) + b"\r\n")
         if b"chunked" in head:
             body = b"%x\r\n" % len(body) + body + b"\r\n" if body else b"0\r\n\r\n"
         pieces = H.random_split(rng, head + body, 4)
-        ob = run_patron(pieces, rng.random() < 0.5)
+        ob = run_patron(pieces, rng.random() < 0.5, dictable=rng.random() < 0.4)
         ctx.case({"pieces": [p.decode("latin-1") for p in pieces], "obs": ob}, nontrivial=True,
                  kind="patron-evented/" + ("escaped" if ob["escaped"] else "ok"))
         emetas.append((pieces, ob))
